@@ -47,7 +47,26 @@ func TestVFC15RefreshVsAdmin(t *testing.T) {
 		specs := make([]vfC15Spec, n)
 		w := vfC15NewWorld(t, specs)
 		defer w.close()
-		w.d.Start()
+		// The refresh below plays the scheduled refresh, which runs in the
+		// worker goroutine that also rebuilds the engines for the admin API
+		// (updatesLoop): rebuilds asked for during the refresh are carried out
+		// by that same goroutine afterwards.  (A refresh asked for through the
+		// API cannot overlap another admin call: home serialises those.)  So
+		// there is no second goroutine here: the harness owns the worker's
+		// queue and works it off after the refresh, as the worker would.
+		w.d.filtersInitializerChan = make(chan filtersInitializerParams, 1)
+		worker := func() {
+			for {
+				select {
+				case params := <-w.d.filtersInitializerChan:
+					if ierr := w.d.initFiltering(params.allowFilters, params.blockFilters); ierr != nil {
+						t.Fatalf("rebuilding the engines: %v", ierr)
+					}
+				default:
+					return
+				}
+			}
+		}
 
 		var hookMu sync.Mutex
 		hookFor, hookDone := 0, false
@@ -83,6 +102,7 @@ func TestVFC15RefreshVsAdmin(t *testing.T) {
 			if !ok {
 				t.Fatalf("VERIF-INCONCLUSIVE %s: refresh lock was held", what)
 			}
+			worker()
 
 			return updated
 		}
